@@ -141,7 +141,7 @@ type TypeDesc struct {
 	HasMultiMap bool
 	// GCOnly: a GC shape with Probe fields, used by C11 only.
 	GCOnly bool
-	NewEnc      func(w io.Writer, c avro.Compression, blockSize int) (EncHandle, error)
+	NewEnc func(w io.Writer, c avro.Compression, blockSize int) (EncHandle, error)
 }
 
 func desc[T any](name string, refOnly, multiMap bool) *TypeDesc {
